@@ -1,14 +1,21 @@
 ------------------------------ MODULE Gen_Names ------------------------------
-(* Behaviour generator for C37 (leg A): for a (prefix, limit) configuration one behaviour listing EVERY
-   non-empty suffix over Letters on both sides of the limit; the driver names them all with the real
-   GetLengthLimitedID / EndpointChainName (twice, in two orders) inside one name space.            *)
+(* Behaviour generator for C37 (leg A): for each prefix one behaviour listing EVERY identity of the form
+        head ++ filler ++ tail      head over Letters, 0..2 characters;  tail over Letters, 0..TailMax characters
+   with a fixed filler of L characters that are not in Letters, and the limit set to  Len(prefix) + L + 3 : the
+   identities lie on both sides of the limit (total length L .. L+2+TailMax), those of exactly the limit's
+   length come with and without a leading marker.  The filler only serves to leave L+2 characters for the hash
+   (with a 3-character hash a thousand identities DO collide - the collision-resistance assumption needs room).
+   The driver names them all with the real GetLengthLimitedID and, in reverse order, with EndpointChainName,
+   inside one name space.                                                                            *)
 EXTENDS Integers, Sequences, TLC, Json
-CONSTANTS Letters, Max, Prefixes
+CONSTANTS Letters, L, TailMax, Prefixes
 VARIABLES pre, emitted
-Suffixes(p) == UNION { [1..n -> Letters] : n \in 1..(Max + 2 - Len(p)) }
+Str(n) == UNION { [1..k -> Letters] : k \in 0..n }
+Filler == [i \in 1..L |-> "x"]
+Ids == { h \o Filler \o t : h \in Str(2), t \in Str(TailMax) }
 PQ == {<<"p">>, <<"q", "-">>, <<"_">>}
 PT == {<<"p">>, <<"q", "-">>, <<"_">>, <<"c", "-", "_">>}
 GInit == pre \in Prefixes /\ emitted = FALSE
 GNext == ~emitted /\ emitted' = TRUE /\ UNCHANGED pre
-EmitEdge == PrintT("BEH " \o ToJson(<< [op |-> "raw", pre |-> pre, max |-> Max, ids |-> Suffixes(pre)] >>))
+EmitEdge == PrintT("BEH " \o ToJson(<< [op |-> "raw", pre |-> pre, max |-> Len(pre) + L + 3, ids |-> Ids] >>))
 =============================================================================
